@@ -1435,6 +1435,12 @@ fn finish<C: HCfg>(
                 n.tr.conn = s.verif_connect_status();
             }
             record_sizes(n, false);
+            // an application that never drained its events during the run looks at them now:
+            // what the queue finally holds is recorded with the last round
+            let undrained = if ni < cx.scn.peers.len() { !cx.scn.peers[ni].drain } else { !cx.scn.specs[ni - cx.scn.peers.len()].drain };
+            if undrained {
+                drain_events(n, rounds_run, true);
+            }
         }
         // C03 at the end of the run, against the FINAL connection status: a frame of the final
         // timeline says Disconnected for a player exactly when it lies beyond the last frame
